@@ -96,7 +96,8 @@ def run(rep, drv):
 		cheap_stockouts = (k % 3 == 1) if k < 6 else rng.random() < .35          # the first cases run through every regime deterministically
 		if cheap_stockouts:
 			h = rng.choice([3, 10, 24]); p = rng.choice([0.5, 1, 2])          # holding dearer than stockouts: r(Q) well below the mean, r+Q near it
-		SLOW = [(1, 0.1, 50, 100, 30, 1), (1, 4, 20, 100, 60, 4.7), (5, 0.5, 8, 1300, 600, 1), (2, 0.25, 20, 500, 200, 0.5)]
+		SLOW = [(1, 0.1, 50, 100, 30, 1), (1, 4, 20, 100, 60, 4.7), (5, 0.5, 8, 1300, 600, 1), (2, 0.25, 20, 500, 200, 0.5),
+				(1, 1, 20, 200, 40, 1), (1, 1.2, 50, 200, 30, 1), (2, 2, 20, 500, 100, 0.5)]          # the last three: stockouts about as cheap as holding, reorder point BELOW the mean lead-time demand
 		if 6 <= k < 6 + len(SLOW):
 			# corpus: instances on which the fixed-point iterations of the approximations converge slowly (hundreds of passes)
 			h, p, K, lam, sd, L = SLOW[k - 6]; cheap_stockouts = p < h; rep.count('normal:slowly-converging-approximation')
@@ -154,6 +155,11 @@ def run(rep, drv):
 				n1 = sigma * (norm.pdf((r1 - mu) / sigma) - (r1 - mu) / sigma * (1 - norm.cdf((r1 - mu) / sigma)))
 				if abs(1 - norm.cdf((r1 - mu) / sigma) - Q1 * h / (p * lam)) > 1e-5 or abs(Q1 - math.sqrt(2 * lam * (K + p * n1) / h)) > 1e-4 * max(1, Q1):
 					bad.append('EIL approximation does not satisfy its defining equations')
+				# ... and reports the cost (5.16) of the pair it returns, whatever the sign of the safety stock r - lambda L
+				g16 = h * (r1 - mu + Q1 / 2) + K * lam / Q1 + p * lam * n1 / Q1
+				if abs(c1 - g16) > 1e-8 * max(1, abs(g16)):
+					bad.append('EIL approximation reports cost %r for (r=%r, Q=%r); equation (5.16) gives %r' % (c1, r1, Q1, g16))
+				rep.count('normal:eil-reorder-point-' + ('below' if r1 < mu else 'above') + '-mean')
 				r2, Q2 = rq.r_q_eoqss_approximation(h, p, K, lam, sd, L)
 				if abs(Q2 - math.sqrt(2 * K * lam / h)) > 1e-9 * Q2 or abs(norm.cdf((r2 - mu) / sigma) - p / (p + h)) > 1e-9:
 					bad.append('EOQ+SS approximation wrong')
